@@ -150,3 +150,9 @@ TEXT["C06"] = dict(
     note="Six genuine defects repaired in /repo (tables overrun appended data / V3-V4 unusable after flush; infinite loop on a full table and mutation before failure; FIX_KEY key and padding; rename of encrypted files; listfile substring match; compact from stale view inventing names). rename/compact are covered by the correspondence and the oracle, not by a theorem of their own; archives with (attributes) by the oracle only.",
     technique="Lean 4 proof (refinement of open addressing with tombstones to a map by invariant + induction over histories; layout invariant) + whole-history differential correspondence on on-disk tables",
 )
+
+TEXT["C07"] = dict(
+    text="Machine-checked Lean 4 theorems about a model of rebuild_archive and of compare's content check, for every listing and option set: a successful rebuild re-adds exactly the listed files the options do not exclude, in order, with the bytes the reader returned (extract_names/sound/complete); the only other outcome is an error naming a selected file that could not be read, never a silent skip (extract_error); the summary counts are truthful and add up (counts_truthful); as a map the result holds every non-excluded name's content and nothing under excluded names (rebuilt_lookup); comparing source and result reports no content difference and exactly the excluded names as missing (compare_clean). Tied to the code by a source x target-version x options sweep comparing the model's summary/error with rebuild_archive's, plus a bit-for-bit content oracle on the rebuilt archive and compare_archives' report.",
+    note="Two genuine defects repaired in /repo (V3/V4 sources rebuilt to an empty archive reported as success, silent skip of unreadable files, count underflow; compare summary underflow). Reader and builder correctness are C01's subject and are assumed here.",
+    technique="Lean 4 proof (structural induction over the listing; map refinement) + differential correspondence over source x target x options",
+)
